@@ -3,6 +3,8 @@ From Coq Require Import NArith ZArith List Lia.
 Require Import Rapid.Model.Base Rapid.Model.Syntax Rapid.Model.Monad Rapid.Model.Prim.
 Require Import Rapid.Model.Interp Rapid.Model.Engine.
 Require Import Rapid.Proofs.IntProofs Rapid.Proofs.RepeatProofs Rapid.Proofs.Contract Rapid.Proofs.Termination.
+Require Rapid.Model.Strings.
+Require Import Rapid.Proofs.StringProofs.
 Import ListNotations.
 Local Open Scope N_scope.
 
@@ -69,3 +71,20 @@ Theorem C03_fuel_means_many_cleanups :
     (LF <= nreg (tr (w (checkOnce geom LF lvl p (start (SBuf l))))))%nat.
 Proof. exact fuel_checkOnce_reg. Qed.
 Print Assumptions C03_fuel_means_many_cleanups.
+
+(* Strings: StringOfN(elem, minRunes, maxRunes, maxLen) over ANY rune generator expression, every parameter, every
+   bitstream: the rune count is within [minRunes, maxRunes], every rune is a code point (valid UTF-8: never a
+   negative value, a surrogate or a value above MaxRune, although the element generator may yield such values -
+   they are rejected), the encoded length is within the byte budget, and every rune is a value of the element
+   generator.  (Model/Strings.v, tied to strings.go by the string-cases correspondence.) *)
+Theorem C03_string_contract :
+  forall geom LF crun e minRunes maxRunes maxLen K s l,
+    wf_g e ->
+    res (Strings.string_gen geom LF crun e minRunes maxRunes maxLen K s) = Ok l ->
+      (minc_of minRunes <= N.of_nat (length l))%N
+      /\ ((minc_of minRunes <= maxc_of maxRunes)%N -> (N.of_nat (length l) <= maxc_of maxRunes)%N)
+      /\ Forall (fun r => (0 < Strings.rune_len r)%Z) l
+      /\ (fold_right (fun r acc => Strings.rune_len r + acc) 0 l <= Strings.maxlen_of maxLen)%Z
+      /\ Forall (fun r => exists v, contract e v /\ Strings.rune_of v = r) l.
+Proof. exact string_contract. Qed.
+Print Assumptions C03_string_contract.
